@@ -168,7 +168,7 @@ class Check:
                 in_ax = True
                 continue
             if in_ax:
-                m = re.match(r"^([A-Za-z_][\w.']*)\s*:", line)
+                m = re.match(r"^([A-Za-z_][\w.']*)\s*(:.*)?$", line)
                 if m:
                     axioms.add(m.group(1))
                 elif line and not line[0].isspace():
